@@ -35,6 +35,7 @@ var envConcPhases = []struct{ name, what string }{
 	{"lockorder", "a chain of scopes root > mod > sub: Addr / Get / Set from the inner scopes (they climb to the parent) against path lookups from the outer scopes (they descend into modules), with definitions queued on every scope"},
 	{"reentrant", "a scope whose external lookup calls back into the scope it serves: a lazy loader that binds what it loads (Get / Type / Addr through it), and a read-only alias lookup that resolves through the scope while other goroutines define symbols on it"},
 	{"widevalues", "a variable holding a struct of 16 words with storage of its own: one goroutine sets it (SetValue with same-typed values whose fields are all equal), others Get it, Copy the scope and read the copy; every read sees the fields of one set"},
+	{"modulestring", "a scope holding a module: one goroutine defines and deletes symbols inside the module while others print the outer scope (String), copy it and list its symbols"},
 	{"oddvalues", "a scope that holds values reflect refuses to copy / set / read (an unexported field of a host struct): Copy, DeepCopy, String under recover, then ordinary operations on the same scope"},
 	{"stress", "8 goroutines x 400 random operations incl. String, DefineType, Type, DeepCopy, symbol listings on one scope"},
 }
@@ -836,6 +837,56 @@ func streamEnvConc(o *Out, r *rand.Rand, n int, thorough bool) {
 		}
 		o.Sum.Evaluations++
 		o.Sum.Hist["reentrant-alias-lookup"]++
+	}
+	if on("modulestring") && phase != "" {
+		parent := env.NewEnv()
+		m, _ := parent.NewModule("m")
+		_ = parent.Define("n", int64(1))
+		stop := make(chan struct{})
+		var wg sync.WaitGroup
+		wg.Add(3)
+		go func() {
+			defer wg.Done()
+			for i := 0; ; i++ {
+				select {
+				case <-stop:
+					return
+				default:
+					k := fmt.Sprintf("k%d", i%50)
+					_ = m.Define(k, int64(i))
+					if i%2 == 1 {
+						m.Delete(k)
+					}
+				}
+			}
+		}()
+		for k := 0; k < 2; k++ {
+			go func(k int) {
+				defer wg.Done()
+				for {
+					select {
+					case <-stop:
+						return
+					default:
+						if k == 0 {
+							_ = parent.String()
+						} else {
+							_ = parent.Copy().String()
+							_ = parent.GetValueSymbols()
+						}
+					}
+				}
+			}(k)
+		}
+		d := time.Second
+		if thorough {
+			d = 5 * time.Second
+		}
+		time.Sleep(d)
+		close(stop)
+		waitOrDeadlock(o, &wg, "modulestring")
+		o.Sum.Evaluations++
+		o.Sum.Hist["module-string-scenario"]++
 	}
 	if on("widevalues") && phase != "" {
 		type wide struct{ F [16]int64 }
